@@ -27,7 +27,7 @@ RULE = (
     "xobject scalar array static or dynamic at any offset | xobject: generated Struct / Array / UnionRef object or a "
     "generated HybridClass object}, optional scalar return value, values at the type extremes / +-0.0 / inf / NaN, "
     "xobjects sharing one buffer at offsets != 0 after 0-2 buffer growths, serial or OpenMP context. The C source of an "
-    "echo kernel is generated from the signature and built with ctx.add_kernels; the call goes through "
+    "echo kernel is generated from the signature and built with ctx.add_kernels (in one case of three under a name that an earlier kernel of another signature, already called, holds in that context); the call goes through "
     "ctx.kernels.<name>(**kwargs). Oracle: the record written by the kernel holds the exact bytes of every scalar, "
     "for every pointer the address of the first element (computed independently from numpy's array interface / the "
     "buffer's storage address + offset + documented data offset) and the bytes found there, for every xobject the "
